@@ -278,6 +278,22 @@ def _wide_tracks(seed):
     return SolutionTracks(g, segmentation=seg, ndim=3)
 
 
+def _many_tracks():
+    """24 nodes (12 two-frame lineages) with wide sparse ids frame*10000+label and 2-pixel
+    masks: enough kept ids for numpy's isin to take its sort-based path"""
+    from funtracks.data_model import SolutionTracks
+    seg = np.zeros((2, 12, 4), dtype="int32")
+    g = nx.DiGraph()
+    for k in range(12):
+        a, b = 10000 + k + 1, 20000 + k + 1
+        g.add_node(a, time=0)
+        g.add_node(b, time=1)
+        g.add_edge(a, b)
+        seg[0, k, 0:2] = a
+        seg[1, k, 1:3] = b
+    return SolutionTracks(g, segmentation=seg, ndim=3)
+
+
 def c15_case(case):
     from funtracks.import_export import export_to_csv, export_to_geff
     kind, wname, seed_j, subset, fmt = case[:5]
@@ -290,7 +306,11 @@ def c15_case(case):
         m = {k: (n + 1 - k if case[5] == "desc" else (k - 1 if case[5] == "zero" else k + 300)) for k in seed["nodes"]}
         seed = {"nodes": {m[k]: v for k, v in seed["nodes"].items()}, "edges": [(m[u], m[v]) for u, v in seed["edges"]]}
         subset = [m[k] for k in subset]
-    if len(case) > 5 and case[5] == "wide":
+    if len(case) > 5 and case[5] == "many":
+        tracks = _many_tracks()
+        allids = sorted(int(n) for n in tracks.graph.nodes)
+        subset = [allids[i] for i in subset]
+    elif len(case) > 5 and case[5] == "wide":
         tracks = _wide_tracks(seed)
     else:
         tracks = explore.rebuild(w, seed, [])
@@ -365,6 +385,13 @@ def c15_case(case):
 def c15_cases(tier):
     q = tier == "quick"
     n = 4 if q else 5
+    # many kept nodes with wide sparse ids: all leaves but k of them (indices into the sorted ids)
+    leaves = list(range(12, 24))
+    one = worlds.seed_to_json({"nodes": {1: (0, (0, 1, 0, 1))}, "edges": []})
+    for drop in ([], [0], [0, 5], [3, 7, 11], [0, 1, 2, 3, 4, 5]):
+        sel = tuple(i for i in leaves if (i - 12) not in drop)
+        yield ("subset", "seg-2d-core", one, sel, "geff", "many")
+        yield ("subset", "seg-2d-core", one, sel, "csv", "many")
     for wname in ("noseg-2d-given", "seg-2d-core"):
         for seed in worlds.forests(n, 3 if q else 4, 1):
             sj = worlds.seed_to_json(seed)
@@ -430,6 +457,8 @@ def c12_table(seed, scheme, parent_enc, ndim, naming, extras, pos_order, malform
         r = {"time": t, "id": ids[n]}
         for k, a in enumerate(axes):
             r[a] = float(10 * (k + 1) + i) + 0.25
+        if ndim == 4:
+            r["z"] = 3 + i  # an integer plane index next to float y / x (mixed column dtypes)
         p = parent.get(n)
         if p is None:
             r["parent_id"] = -1 if parent_enc.startswith("minus1") else None
@@ -633,6 +662,8 @@ def c12_geff_case(case):
         attrs = {R("time"): r["time"], R("score"): r["score"]}
         for k, a in enumerate(axes):
             r[a] = float(10 * (k + 1) + i) + 0.25
+        if ndim == 4 and pos_mode != "stacked":
+            r["z"] = 3 + i  # integer plane index, float y / x
         if pos_mode == "stacked":
             attrs[R("pos")] = np.array([r[a] for a in axes])
         else:
